@@ -39,19 +39,21 @@ TextUnit(t, p) ==
       docs |-> <<JObj(<<KV("a", JStr(<<"a">>))>>)>>, nobuild |-> <<>>,
       opts |-> [structNameFromTitle |-> p = "title"]]
 
-Exts == {"dur", "local", "ident", "nillable"}
+\* "identdup": an explicit identifier that equals the Go name derived for ANOTHER property (a -> A) of the same object
+Exts == {"dur", "local", "ident", "nillable", "identdup"}
 ExtPos == {"property", "items", "anyofmember", "definition"}
 ExtRec(x) == CASE x = "dur" -> [type |-> "time.Duration", imports |-> <<"time">>]
                [] x = "local" -> [type |-> "int64"]
                [] x = "ident" -> [identifier |-> "CustomIdent"]
                [] x = "nillable" -> [type |-> "[]byte", nillable |-> TRUE]
+               [] x = "identdup" -> [identifier |-> "A"]
 ExtUnit(x, p) ==
   LET es == ("type" :> <<"integer">>) @@ ("goJSONSchema" :> ExtRec(x))
       xs == CASE p = "property" -> es
               [] p = "items" -> [type |-> <<"array">>, items |-> es]
               [] p = "anyofmember" -> [anyOf |-> <<Obj(<<[k |-> "m", s |-> es]>>, <<"m">>), Obj(<<[k |-> "n", s |-> Str_]>>, <<"n">>)>>]
               [] p = "definition" -> [ref |-> [k |-> "defs", n |-> "X"]]
-  IN [prop |-> "C01", fam |-> "ext", schema |-> Obj(<<[k |-> "x", s |-> xs], [k |-> "y", s |-> Str_]>>, <<"y">>),
+  IN [prop |-> "C01", fam |-> "ext", schema |-> Obj(<<[k |-> "a", s |-> Str_], [k |-> "x", s |-> xs], [k |-> "y", s |-> Str_]>>, <<"y">>),
       defs |-> IF p = "definition" THEN <<[k |-> "X", s |-> Obj(<<[k |-> "m", s |-> es]>>, <<"m">>)]>> ELSE <<>>,
       docs |-> <<JObj(<<KV("y", JStr(<<"a">>))>>)>>, nobuild |-> <<>>, opts |-> [structNameFromTitle |-> FALSE]]
 
@@ -105,17 +107,27 @@ UDefUnit(k, use) ==
       nobuild |-> IF k = "multnum" THEN <<"NamedFloatMultipleOfNoCompile">> ELSE <<>>,
       opts |-> [structNameFromTitle |-> FALSE]]
 
+\* smult: multipleOf on an integer whose bounds select a sized type under --min-sized-ints (unsigned 64 / 8 bit, signed
+\* 8 bit), at a required, optional and nullable position: the emitted check must be the integer form for every type
+SMultUnit(b, pos) ==
+  LET bounds == CASE b = "u"  -> ("minimum" :> JNum(0))
+                  [] b = "u8" -> ("minimum" :> JNum(0)) @@ ("maximum" :> JNum(800))
+                  [] b = "s8" -> ("minimum" :> JNum(-20)) @@ ("maximum" :> JNum(20))
+      leaf == ("type" :> (IF pos = "null" THEN <<"integer", "null">> ELSE <<"integer">>)) @@ bounds @@ ("multipleOf" :> 32)
+  IN [prop |-> "C01", fam |-> "smult", schema |-> Obj(<<[k |-> "x", s |-> leaf], [k |-> "y", s |-> Str_]>>, IF pos = "req" THEN <<"x">> ELSE <<>>),
+      defs |-> <<>>, docs |-> <<JObj(<<>>)>>, nobuild |-> <<>>, opts |-> [structNameFromTitle |-> FALSE]]
+
 Pars(f) == CASE f = "text" -> Texts \X TextPos [] f = "ext" -> Exts \X ExtPos [] f = "pat" -> Pats \X {"prop", "def"}
-             [] f = "udef" -> UKinds \X UUses
+             [] f = "udef" -> UKinds \X UUses [] f = "smult" -> {"u", "u8", "s8"} \X {"req", "opt", "null"}
 OptSets == {"none", "extra", "models", "sized"}
 WithOpt(unit, o) ==
   [unit EXCEPT !.opts = @ @@ [extraImports |-> o = "extra", onlyModels |-> o = "models", minSizedInts |-> o = "sized"]]
 u == WithOpt(CASE fam = "text" -> TextUnit(par[1], par[2]) [] fam = "ext" -> ExtUnit(par[1], par[2]) [] fam = "pat" -> PatUnit(par[1], par[2])
-               [] fam = "udef" -> UDefUnit(par[1], par[2]), opt)
+               [] fam = "udef" -> UDefUnit(par[1], par[2]) [] fam = "smult" -> SMultUnit(par[1], par[2]), opt)
 Set == picked
 DesignOK == TRUE
 AsIsOK == TRUE
-Init == fam \in {"text", "ext", "pat", "udef"} /\ opt \in OptSets /\ par = <<>> /\ picked = FALSE
+Init == fam \in {"text", "ext", "pat", "udef", "smult"} /\ opt \in OptSets /\ par = <<>> /\ picked = FALSE
 Pick == ~picked /\ picked' = TRUE /\ par' \in Pars(fam) /\ UNCHANGED <<fam, opt>>
 Next == Pick
 Spec == Init /\ [][Next]_vars
